@@ -85,6 +85,11 @@ func (c *WarmUpTrafficShapingCalculator) CalculateAllowedTokens(_ uint32, _ int3
 	if float64(restToken) >= c.warningToken && c.threshold > 0 {
 		aboveToken := float64(restToken) - c.warningToken
 		warningQps := math.Nextafter(1.0/(aboveToken*c.slope+1.0/c.threshold), math.MaxFloat64)
+		if warningQps < 1.0 && c.threshold >= 1.0 {
+			// A cold rate below one token per statistic window would never admit anything:
+			// the passed QPS would stay zero and the calculator could never warm up.
+			warningQps = 1.0
+		}
 		return warningQps
 	} else {
 		return c.threshold
